@@ -35,6 +35,20 @@ def n_cases(tier):
 def make_case(i, rng, tier):
     decl = D.gen_decl(rng)
     inputs = [D.gen_input(rng, decl) for _ in range(6)]
+    if decl["base"] != "function" and rng.random() < 0.2:
+        # the class inherits from a base that declared some of its fields under OTHER aliases; the re-declaration replaces them,
+        # so the base's spellings are unknown keys for the subclass, whatever the lookup strategy
+        parent = []
+        for f in rng.sample(decl["fields"], rng.randint(1, len(decl["fields"]))):
+            # (the library only allows a re-declaration under the same output name: the input aliases are what differs)
+            g = dict(f, alias_from=["%s_old" % f["name"]], dependencies=[])
+            parent.append(g)
+        decl["parent"] = parent
+        for pairs, plan in inputs:
+            for g in parent:
+                if rng.random() < 0.5:
+                    vals = D.type_info(g["type"])[1]
+                    pairs.insert(rng.randrange(len(pairs) + 1), (rng.choice(g["alias_from"]), rng.choice(vals)))
     return {"decl": decl, "inputs": inputs, "route": rng.choice(["runtime", "runtime", "class"])}
 
 
